@@ -45,7 +45,7 @@ CTX = {"jit": "LJit", "scan": "LScan", "while": "LWhile", "fori": "LFori", "cond
        "seed_jit": "LSeedJit", "seed_fori": "LSeedFori", "seed_ok": "LSeedOk", "seed_scan_while": "LSeedScanWhile",
        "jit_det": "LJitDet", "seed_remat": "LSeedEagerHO", "seed_custom_jvp": "LSeedEagerHO", "seed_custom_vjp": "LSeedEagerHO",
        "seed_remat_jit": "LSeedEagerHO", "seed_remat_remat": "LSeedEagerHO2", "seed_remat_custom_jvp": "LSeedEagerHO2",
-       "seed_custom_jvp_remat": "LSeedEagerHO2", "jit_adev": "LJit", "seed_ok_adev": "LSeedOk", "seed_scan_adev": "LSeedOk"}
+       "seed_custom_jvp_remat": "LSeedEagerHO2", "seed_grad": "LSeedGrad", "jit_grad_of_seed": "LSeedOk", "scan_grad": "LGrad", "jit_jvp": "LGrad", "jit_adev": "LJit", "seed_ok_adev": "LSeedOk", "seed_scan_adev": "LSeedOk"}
 
 
 def scase(c):
@@ -102,7 +102,7 @@ def run(ctx):
                                  "term of the key algebra (BFS over real threefry split/fold_in) and must equal the model's term list; also a persistent sampler object under different keyword parameterisations and parameter shapes, a sampler closing over an array constant, and a vectorised call (modular_vmap with axis_size, site parameters unbatched or mixed, passed positionally or by keyword) "
                                  "run eagerly, with keyword arguments, from a second identical definition, under jit and vmap over keys, with unseeded and seeded re-vectorisations of the same callee in between "
                                  "(every lane must report the site key, shape (lanes,2)); non-trivial = distinct program with >=2 site instances. "
-                                 "lower: a site (plain, with its own sample_shape, vectorised by axis_size, vectorised with its parameter passed by keyword) at nesting depth 1-2 placed in jit/scan/while/fori/cond/nested jit/grad/value_and_grad/vmap and seed+while/jit/fori/scan-of-while/checkpoint/custom_jvp/custom_vjp (eager and under jit; also two such wrappers deep); "
+                                 "lower: a site (plain, with its own sample_shape, vectorised by axis_size, vectorised with its parameter passed by keyword) at nesting depth 1-2 placed in jit/scan/while/fori/cond/nested jit/grad/value_and_grad/jvp (under jit or scan)/vmap, seed of grad, jit of grad of seed, and seed+while/jit/fori/scan-of-while/checkpoint/custom_jvp/custom_vjp (eager and under jit; also two such wrappers deep); "
                                  "outcome class compared with the model (code) and with the property (spec); non-trivial = distinct (context, depth)",
                          "histogram": {"kinds": Counter(c["kind"] for c in cases),
                                        "lower_outcomes": Counter((c.get("ctx"), c.get("raised")) .__str__() for c in cases if c["kind"] == "lower"),
@@ -111,6 +111,5 @@ def run(ctx):
 
 
 def signature(case, agree, strict, relaxed):
-    if case["kind"] == "lower" and case["ctx"] in ("grad", "value_and_grad") and agree and not strict:
-        return "K2-grad-bakes-key"
+    # (the former known finding K2 - jit(grad f) bakes a key - is repaired: fix F25)
     return None
